@@ -649,6 +649,19 @@ impl Scenario for PoolScenario {
                     return;
                 }
             }
+            Pool::FiveLockFree(_) | Pool::FiveMutex(_) => {
+                // every block is free now: the bytes the pool reports as sitting in its free structures
+                // are exactly the bytes it has carved so far
+                let st = match &pool {
+                    Pool::FiveLockFree(p) => p.stats(),
+                    Pool::FiveMutex(p) => p.stats(),
+                    _ => unreachable!(),
+                };
+                if frees_err == 0 && st.fragment_size != st.used_memory {
+                    cx.violate("counters_do_not_add_up", &site_cnt, format!("every block has been freed, but fragment_size={} and used_memory={} ({} allocations, {} frees)", st.fragment_size, st.used_memory, allocs_ok, frees_ok));
+                    return;
+                }
+            }
             _ => {}
         }
         // ---- drain: the free structures are well formed and serve every freed block at most once
